@@ -408,3 +408,17 @@ Theorem C05_heap_nonvacuous_reference_and_failures :
     = Some (false, Some (repeat 7 10), 0, 0%nat).
 Proof. exact (conj ex_prints_reference_node ex_failures). Qed.
 Print Assumptions C05_heap_nonvacuous_reference_and_failures.
+
+(** where the hypothesis [complete] comes from: cJSON_AddItemReferenceToArray(a, a) on a non-empty array (public
+    API only) gives a well-formed forest with a live reference target in which the reference node's borrowed
+    chain contains the reference node itself.  No unrolling is complete (checked to 6 levels) and the heap-level
+    printer runs out of fuel (public entry point; fuel 40): the real cJSON_PrintUnformatted recurses until the
+    stack is exhausted (observed under ASan), while cJSON_Duplicate gives up at CJSON_CIRCULAR_LIMIT. *)
+Theorem C05_heap_unbounded_structure :
+  ex3_build empty_heap = Ret (Some 1%positive, ex3_h) /\ WF ex3_h ex3_F /\ refs_in ex3_F /\
+  find_tree 1%positive ex3_F = Some ex3_t /\
+  (forall k, (k <= 6)%nat -> ~ complete (unroll ex3_F k ex3_t)) /\
+  err_of (cJSON_PrintUnformatted_h fmt_d fmt_g15 fmt_g17 sscanf_lg orc0 junk_a5 (Some 1%positive) ex3_h) = Some NoFuel /\
+  err_of (print_h fmt_d fmt_g15 fmt_g17 sscanf_lg orc0 junk_a5 40 40 (Some 1%positive) false ex3_h) = Some NoFuel.
+Proof. exact ex_cyclic. Qed.
+Print Assumptions C05_heap_unbounded_structure.
